@@ -23,6 +23,10 @@ func c09Templates(n int, full bool) []string {
 	if full {
 		segs = []string{"a", "b", "{x}", "{y}", "w{x}", "wa"}
 	}
+	return c09TemplatesOver(n, segs)
+}
+
+func c09TemplatesOver(n int, segs []string) []string {
 	var out []string
 	var rec func(prefix []string)
 	rec = func(prefix []string) {
@@ -72,6 +76,28 @@ func c09Paths(n int, dotted bool) (strict []string, relaxed []string) {
 	}
 	relaxed = []string{"/a/", "/a//b", "//a", "/a/b/", "/"}
 	return
+}
+
+var tplTriples, tplQuick, tplThorough, pathsQuick, pathsThorough, relaxedPaths []string
+
+func c09Init() {
+	tplQuick, tplThorough = c09Templates(2, false), c09Templates(2, true)
+	tplTriples = c09TemplatesOver(2, []string{"a", "{x}", "w{x}", "wa"})
+	pathsQuick, relaxedPaths = c09Paths(2, false)
+	pathsQuick = append(pathsQuick, "/a/b/c", "/a/a/a", "/c/a/b")
+	pathsThorough, _ = c09Paths(3, false) // <=3 segments over {a,b,c,wa,w1} plus three dotted paths
+}
+
+var c09Outcomes = map[[3]bool]string{}
+
+func c09Outcome(a, b, c bool) string {
+	k := [3]bool{a, b, c}
+	if s, ok := c09Outcomes[k]; ok {
+		return s
+	}
+	s := fmt.Sprintf("server_matches=%v servable=%v routed=%v", a, b, c)
+	c09Outcomes[k] = s
+	return s
 }
 
 type c09Server struct {
@@ -127,10 +153,9 @@ func c09Doc(templates []string, methods [][]string, servers any) map[string]any 
 }
 
 func init() {
-	var tplQuick, tplThorough, pathsQuick, pathsThorough, relaxedPaths []string
 	core.Register(&core.Check{
 		ID: "C09",
-		Rule: "documents: every set of 1-2 (quick; thorough 1-3) path templates over segments {a, b, {x}, {y}, w{x} (variable with a literal prefix inside the segment), wa} of up to 2 (thorough 3) segments that passes validation, each template with methods {GET}, {POST} or {GET,POST}, x servers {none, /v1, http://h.example/v1, https://{env}.example/{base} with enum and defaults, two relative servers, one host under two schemes, one host with two base paths}; " +
+		Rule: "documents: every set of 1-2 path templates of up to 2 segments over {a, b, {x}, w{x} (variable with a literal prefix inside the segment), wa} (thorough: also {y}, every method set, request paths of up to 3 segments; plus every set of 3 templates over {a, {x}, w{x}, wa} under three server lists) that passes validation, each template with methods {GET}, {POST} or {GET,POST}, x servers {none, /v1, http://h.example/v1, https://{env}.example/{base} with enum and defaults, two relative servers, one host under two schemes, one host with two base paths}; " +
 			"requests: every path of up to 2 segments over {a,b,c} plus dotted and three 3-segment paths (thorough: up to 4 segments over {a,b,c,a.b}), and five paths with empty segments / trailing slashes (relaxed: only no-panic and operation identity) under every matching and non-matching server prefix x {GET, POST, PUT}; both routers (legacy under both map orders). Invariants: (i) a returned route carries the operation declared for (route.Path, method) and its parameters reproduce the path; " +
 			"(ii) a path that fills a declared template with a declared method under a declared server is routed; (iii) a literal template equal to the path wins; (iv) no template or no server => a RouteError and no route. non-trivial = the request path matches at least one template of the document",
 		Assumptions: []string{
@@ -142,31 +167,39 @@ func init() {
 		MinOutcomes:   3,
 		ShrinkVectors: true,
 		DevBound:      func(string) int { return 1 },
+		CapSeconds: func(tier string) int {
+			if tier == "thorough" {
+				return 2400
+			}
+			return 150
+		},
 		Init: func(r *core.Run) {
-			tplQuick, tplThorough = c09Templates(2, false), c09Templates(3, true)
-			pathsQuick, relaxedPaths = c09Paths(2, false)
-			pathsQuick = append(pathsQuick, "/a/b/c", "/a/a/a", "/c/a/b")
-			pathsThorough, _ = c09Paths(4, true)
+			c09Init()
 		},
 		Body: func(r *core.Run, x *explore.X) {
-			tpls, paths, maxSet := tplQuick, pathsQuick, 2
-			if r.Tier == "thorough" {
-				tpls, paths, maxSet = tplThorough, pathsThorough, 3
-			}
 			if tplQuick == nil {
-				tplQuick, tplThorough = c09Templates(2, false), c09Templates(3, true)
-				pathsQuick, relaxedPaths = c09Paths(2, false)
-				pathsQuick = append(pathsQuick, "/a/b/c", "/a/a/a", "/c/a/b")
-				pathsThorough, _ = c09Paths(4, true)
-				tpls, paths = tplQuick, pathsQuick
-				if r.Tier == "thorough" {
-					tpls, paths = tplThorough, pathsThorough
+				c09Init()
+			}
+			tpls, paths, maxSet := tplQuick, pathsQuick, 2
+			servers := c09Servers
+			wide := false
+			if r.Tier == "thorough" {
+				// two families, both complete: (wide) sets of <=2 templates over the full segment alphabet with every method set and
+				// request paths of <=3 segments; (triples) sets of 3 templates over {a,{x},w{x},wa} under three server lists
+				if x.Choose(2) == 0 {
+					tpls, paths, maxSet, wide = tplThorough, pathsThorough, 2, true
+				} else {
+					tpls, paths, maxSet = tplTriples, pathsQuick, 3
+					servers = []c09Server{c09Servers[0], c09Servers[1], c09Servers[5]}
 				}
 			}
 			nStrict := len(paths)
 			paths = append(append([]string{}, paths...), relaxedPaths...)
 			// a set of templates: strictly increasing indices
 			n := 1 + x.Choose(maxSet)
+			if maxSet == 3 {
+				n = 3
+			}
 			var set []string
 			var methods [][]string
 			start := 0
@@ -176,14 +209,14 @@ func init() {
 				}
 				k := start + x.Choose(len(tpls)-start)
 				set = append(set, tpls[k])
-				if r.Tier == "thorough" {
+				if wide {
 					methods = append(methods, explore.Pick(x, c09MethodSets))
 				} else {
 					methods = append(methods, explore.Pick(x, c09MethodSets[1:])) // quick tier: {POST} and {GET,POST}
 				}
 				start = k + 1
 			}
-			srv := explore.Pick(x, c09Servers)
+			srv := explore.Pick(x, servers)
 			order := x.Deviate(2)
 			if !r.Own(x) {
 				return
@@ -233,6 +266,7 @@ func init() {
 				}
 				return false
 			}
+			docStr, orderStr := string(docJSON), fmt.Sprint(order)
 			for _, router := range rts {
 				for _, pf := range srv.prefixes {
 					for pi, p := range paths {
@@ -264,13 +298,13 @@ func init() {
 							if pf.origin {
 								form = "origin-form"
 							}
-							rsig := fmt.Sprintf("%s | %s %s%s (%s) via %s", sig, method, pf.url, p, form, router.name)
+							rsig := sig + " | " + method + " " + pf.url + p + " (" + form + ") via " + router.name
 							r.Exec(order)
-							d := map[string]any{"document": string(docJSON), "request": method + " " + pf.url + p, "router": router.name}
+							d := map[string]any{"document": docStr, "request": method + " " + pf.url + p, "router": router.name}
 							if !r.Guard(x, "FindRoute", d, func() { route, params, ferr = router.r.FindRoute(req) }) {
 								continue
 							}
-							r.Case(rsig+fmt.Sprint(order), len(matching) > 0)
+							r.Case(rsig+orderStr, len(matching) > 0)
 							r.Validated(1)
 							servable := false
 							for _, i := range matching {
@@ -278,7 +312,7 @@ func init() {
 									servable = true
 								}
 							}
-							r.Outcome(fmt.Sprintf("server_matches=%v servable=%v routed=%v", pf.matches, servable, ferr == nil && route != nil))
+							r.Outcome(c09Outcome(pf.matches, servable, ferr == nil && route != nil))
 							fail := func(clause string, kv ...any) {
 								dd := cloneDetailAny(d)
 								for i := 0; i+1 < len(kv); i += 2 {
